@@ -171,6 +171,46 @@ CHECKS = {
             "`X :: comptime { core.meta... }` is rejected by capy, so comptime reflection runs in a comptime block inside main",
             "runtime monitoring: reflection stream vs address-arithmetic measurements vs declaration on the executed program, pairwise type-value equality masks, any-type masks",
             "cli", "4/C18"),
+    "C01": ("exploration",
+            "random well-typed programs of the whole fragment (all integer widths, bool, char, f32/f64 lightly, arrays, slices, structs, enums with payloads and custom "
+            "discriminants, optionals, error unions, pointers, functions, lambdas/function pointers, while/loop, labeled blocks, break/continue/return, switch, "
+            "#unwrap/#is_variant, .try, casts, varargs, defer, shadowing, global consts; <= 12 globals, <= 40 statements per function, nesting <= 6, loops <= 64 "
+            "iterations; 15% with a planned runtime fault, 50% with an integer main result) are built as a typed AST, compiled by the real CLI, linked and run; the "
+            "executable's event log (one unique id per print) and exit status are compared line by line with an independent reference interpreter written from the "
+            "README; a rejection or internal error of a well-typed program is a violation; witnesses are delta-minimised on the AST.",
+            "the generator defines 'well-typed'; reference interpreter from README + C08's arithmetic; no program depends on evaluation order of operands; exit status "
+            "compared mod 256; whether a switch argument aliases the scrutinee is not judged (README silent)",
+            "runtime monitoring: translation validation by execution (typed program generator + independent reference interpreter vs. event log and exit status of the real executable)",
+            "cli", "4/C01"),
+    "C05": ("exploration",
+            "random programs over the identifier pool {a,b,c,d,u8,nil} with nested blocks, same-block shadowing, switch arguments (statement/expression, payload uses), "
+            "(comptime) parameters, non-capturing lambdas, comptime blocks, assignments, literal globals at any file position and an imported file with same-named "
+            "globals; every binding has a unique value; for every use site the position of `undefined reference` diagnostics (negative/mixed programs) and the printed "
+            "value (positive/mixed programs, up to 3 branch selectors) are compared with a scope model implementing the statement's lookup order; uses after a "
+            "switch/block/lambda of the names bound inside are generated deliberately.",
+            "lambdas and comptime blocks start from an empty local scope (hand-verified, pinned by the repo's own lowering snapshot); built-in level judged only for order; "
+            "comptime blocks are not generated inside generic functions (known todo!())",
+            "runtime monitoring: per-use-site diagnostic-position observation + executed-value oracle (unique value per binding) against an independent scope model and AST interpreter",
+            "cli", "4/C05"),
+    "C16": ("exploration",
+            "two-file programs with 2-4 generic functions from 8 families, 1-3 comptime parameters (types of every integer width / floats / bool / char / distinct / "
+            "structs / array types; integers of 9 types; bool; `comptime D: T`), inline header references, varargs, nested generic calls, imported generics that use "
+            "their own file's globals, type-returning generics; each generic is instantiated 1-4 times with equal and single-argument-conflicting arguments, interleaved; "
+            "for every instantiation a hand-substituted copy (substitution on the generator's AST) is called with the same run-time arguments; event logs of generic "
+            "call, copy and an independent interpreter must agree; rejected programs are re-compiled with copies only to attribute the rejection.",
+            "trusts the substitution rules in ASSUME and the reference interpreter; features that crash the compiler are only probed by pinned programs (known findings); "
+            "instantiations with identical representation are exercised but not distinguishable",
+            "runtime monitoring: event-log equivalence of generic call vs generator-made substituted copy vs independent interpreter on the executed program, with per-run oracle self-check on doctored logs",
+            "cli", "4/C16"),
+    "C20": ("exploration",
+            "generated programs with 3-12 interdependent globals of 14 kinds (type aliases, distinct, comptime-computed types, type-returning generics, structs with "
+            "const-sized arrays, enums with const discriminants, literal/reference/comptime consts, comptime struct globals, functions, (mutually) recursive functions, "
+            "generics, function aliases) are rendered in a canonical layout, 6 permutations and 4 partitions into 2-3 files with cyclic imports and random entry file; "
+            "every layout must be accepted iff the canonical one is and its executable must print exactly what the canonical one prints, which in turn must equal a "
+            "python reference evaluation; hook H2 counts the distinct inference schedules the layouts produced.",
+            "README silence on definition order, import cycles and cross-file access is read as 'allowed'; only verdict and behaviour are compared (object bytes are C21's subject)",
+            "runtime monitoring: metamorphic comparison of executions across layouts of one program + reference oracle; scheduling-log hook as reach evidence",
+            "probe+cli", "4/C20"),
     "C19": ("exploration",
             "random and fixed-core signatures (0-8 parameters, scalars and flat structs up to 64 bytes covering INTEGER/SSE/MEMORY classes, register "
             "exhaustion, sret) are exercised in both directions (capy calls extern C; C calls a capy function pointer) against C code compiled by the host "
